@@ -728,3 +728,41 @@ def none_arith_rule(rep: Report, prog: Program, PROP: str, RULE: str) -> None:
                                         construct=f"self.{X} may be None in `{unparse(n)[:50]}`"))
     if n_sites < 12:
         raise AnalysisError(f"{RULE}: only {n_sites} arithmetic uses of Optional fields found on the receive path")
+
+
+def run_prelude(ev, fn_node: ast.AST, target: ast.AST) -> None:
+    """Before a statement (or test) of a function is evaluated on its own: execute the simple assignments `name = <expr>` that precede it in the enclosing blocks and
+    whose names it reads (a refactoring that hoists a sub-expression into a local must not blind the rule).  Names the rule has bound itself are left alone;
+    an assignment that cannot be evaluated in the rule's environment is skipped."""
+    from engine.index import Unknown
+    from engine.peval import Raised
+    parents: Dict[int, ast.AST] = {}
+    for p in ast.walk(fn_node):
+        for ch in ast.iter_child_nodes(p):
+            parents[id(ch)] = p
+    chain = [target]
+    while id(chain[-1]) in parents and chain[-1] is not fn_node:
+        chain.append(parents[id(chain[-1])])
+    needed = {n.id for n in ast.walk(target) if isinstance(n, ast.Name) and isinstance(n.ctx, ast.Load)}
+    todo: List[ast.stmt] = []
+    for child, par in zip(chain, chain[1:]):
+        for fld in ("body", "orelse", "finalbody"):
+            blk = getattr(par, fld, None)
+            if isinstance(blk, list) and any(x is child for x in blk):
+                idx = next(i for i, x in enumerate(blk) if x is child)
+                todo = [s for s in blk[:idx] if isinstance(s, (ast.Assign, ast.AnnAssign))] + todo
+    # keep the assignments whose target is (transitively) needed
+    keep: List[ast.stmt] = []
+    for s in reversed(todo):
+        tgt = s.targets[0] if isinstance(s, ast.Assign) and len(s.targets) == 1 else getattr(s, "target", None)
+        if isinstance(tgt, ast.Name) and tgt.id in needed and getattr(s, "value", None) is not None:
+            keep.insert(0, s)
+            needed |= {n.id for n in ast.walk(s.value) if isinstance(n, ast.Name)}
+    for s in keep:
+        tgt = s.targets[0] if isinstance(s, ast.Assign) else s.target
+        if tgt.id in ev.env:
+            continue
+        try:
+            ev.exec_stmt(s)
+        except (Unknown, Raised):
+            pass
